@@ -115,7 +115,12 @@ func runC10(c *sim.Ctx) {
 					d[m.Off], d[m.Off+1] = byte(v>>8), byte(v)
 					desc += fmt.Sprintf(" u16@%d=%#x", m.Off, v)
 				case ref.TMTotalLen:
-					d[m.Off+st.Choose(4)] = st.Byte()
+					if st.Chance(1, 2) {
+						d[m.Off+st.Choose(4)] = st.Byte()
+					} else {
+						v := []uint32{0, 1, 9, 10, 13, 14, 0x7fffffff, 0x80000000, 0xfffffffb, 0xfffffffc, 0xfffffffd, 0xfffffffe, 0xffffffff, 0x3fffffff, 0x40000000}[st.Choose(15)]
+						d[m.Off], d[m.Off+1], d[m.Off+2], d[m.Off+3] = byte(v>>24), byte(v>>16), byte(v>>8), byte(v)
+					}
 					desc += " totallen"
 				}
 			}
@@ -211,16 +216,51 @@ func runC10(c *sim.Ctx) {
 						c.Fail("FRAME_MAPS", site, facts, "decoded maps (int %d, str %d entries) differ from the info sections (int %d, str %d);%s", len(dp.IntInfo), len(dp.StrInfo), len(f.Int), len(f.Str), desc)
 					}
 				}
+				if f.OK && f.DupKeys {
+					// which occurrence of a repeated key wins is not specified; but the key set is, and
+					// every value must be one that was encoded for its key
+					bad := len(dp.IntInfo) != len(f.Int) || len(dp.StrInfo) != len(f.Str)
+					for k, v := range dp.StrInfo {
+						ok := false
+						for _, w := range f.StrAll[k] {
+							ok = ok || w == v
+						}
+						bad = bad || !ok
+					}
+					for k, v := range dp.IntInfo {
+						ok := false
+						for _, w := range f.IntAll[k] {
+							ok = ok || w == v
+						}
+						bad = bad || !ok
+					}
+					if bad {
+						facts["duplicate_keys"] = true
+						c.Fail("FRAME_MAPS", site, facts, "decoded maps contain a key or value that no info section encodes (frame with repeated keys);%s", desc)
+					}
+				}
 			}
 			{
-				scfg := sim.RandomSourceCfg(cfg, len(d))
-				src := sim.NewSource(c, fmt.Sprintf("r%d", k), d, scfg)
-				src.BeginCall(len(d))
+				// the frame may follow other bytes on the same connection, consumed by the
+				// caller without a Release in between
+				pre := 0
+				if cfg.Chance(1, 2) {
+					pre = 1 + cfg.Choose(40)
+				}
+				stream := append(sim.KeyedBytes(uint64(c.Index)+5, 0, pre), d...)
+				scfg := sim.RandomSourceCfg(cfg, len(stream))
+				src := sim.NewSource(c, fmt.Sprintf("r%d", k), stream, scfg)
+				src.BeginCall(len(stream))
 				dr := bufiox.NewDefaultReader(src)
+				if pre > 0 {
+					if _, err := dr.Next(pre); err != nil {
+						c.Fail("READ_ERROR", "Next/DefaultReader", sim.F{}, "%v", err)
+					}
+				}
 				var dp ttheader.DecodeParam
 				var err error
 				c.GuardNoOOM("Decode/DefaultReader", func() { dp, err = ttheader.Decode(ctx, dr) })
-				judge("Decode/DefaultReader", dp, err, dr.ReadLen(), true)
+				judge("Decode/DefaultReader", dp, err, dr.ReadLen()-pre, true)
 				dr.Release(nil)
 			}
 			{
